@@ -11,6 +11,7 @@ package asa
 
 import (
 	"sort"
+	"strconv"
 	"strings"
 
 	"github.com/hknutzen/Netspoc-Approve/go/pkg/vf"
@@ -42,6 +43,12 @@ func gKindName(top string) (string, string) {
 		return "ip local pool", w[3]
 	case len(w) >= 5 && w[0] == "crypto" && w[1] == "ca" && w[2] == "certificate" && w[3] == "map":
 		return "crypto ca certificate map", w[4]
+	case len(w) >= 5 && w[0] == "crypto" && w[1] == "ipsec" && w[2] == "ikev1" && w[3] == "transform-set":
+		return "transform-set", w[4]
+	case len(w) == 5 && w[0] == "crypto" && w[1] == "map" && w[3] == "interface":
+		return "crypto map interface", top
+	case len(w) >= 5 && w[0] == "crypto" && w[1] == "map":
+		return "crypto map", w[2]
 	case len(w) >= 3 && w[0] == "group-policy":
 		return "group-policy", w[1]
 	case len(w) >= 3 && w[0] == "tunnel-group":
@@ -66,7 +73,7 @@ func gIsTop(c string) bool {
 // anchors: commands Netspoc binds its configuration to
 func gIsAnchor(kind, name string) bool {
 	switch kind {
-	case "username", "access-group", "tunnel-group-map", "webvpn", "interface":
+	case "username", "access-group", "tunnel-group-map", "webvpn", "interface", "crypto map interface":
 		return true
 	case "tunnel-group":
 		// tunnel-group with an IP address as name
@@ -87,7 +94,7 @@ func gOpensMode(top string) bool {
 	case "ldap", "object-group", "webvpn", "interface":
 		return true
 	case "crypto":
-		return true
+		return w[1] == "ca"
 	}
 	return false
 }
@@ -106,6 +113,18 @@ func gRefs(top, sub string) []gRef {
 			}
 		case "access-group":
 			l = append(l, gRef{"access-list", w[1]})
+		case "crypto":
+			if len(w) == 5 && w[1] == "map" && w[3] == "interface" {
+				l = append(l, gRef{"crypto map", w[2]})
+			}
+			if len(w) == 7 && w[1] == "map" && w[4] == "match" && w[5] == "address" {
+				l = append(l, gRef{"access-list", w[6]})
+			}
+			if len(w) >= 8 && w[1] == "map" && w[4] == "set" && w[5] == "ikev1" && w[6] == "transform-set" {
+				for _, t := range w[7:] {
+					l = append(l, gRef{"transform-set", t})
+				}
+			}
 		case "tunnel-group-map":
 			if w[1] == "default-group" {
 				l = append(l, gRef{"tunnel-group", w[2]})
@@ -223,6 +242,26 @@ func (m *gModel) delObject(r gRef, cmd string) {
 	m.entries = keep
 }
 
+// key of a single-valued crypto map attribute ("" for multi-valued ones)
+func gCryptoKey(w []string) string {
+	if len(w) < 6 || w[1] != "map" {
+		return ""
+	}
+	switch {
+	case w[4] == "match" && w[5] == "address":
+		return "match address"
+	case w[4] == "set" && w[5] == "pfs":
+		return "set pfs"
+	case w[4] == "set" && w[5] == "ikev1":
+		return "set ikev1 transform-set"
+	case w[4] == "set" && w[5] == "security-association" && len(w) >= 8:
+		return "set security-association lifetime " + w[7]
+	case w[4] == "set" && (w[5] == "nat-t-disable" || w[5] == "reverse-route"):
+		return "set " + w[5]
+	}
+	return ""
+}
+
 func gSubKey(s string) string {
 	w := strings.Fields(s)
 	switch w[0] {
@@ -332,8 +371,44 @@ func (m *gModel) exec(c string) {
 			}
 			return
 		}
+		if k, _ := gKindName(body); k == "crypto map" && !neg {
+			// crypto map NAME SEQ <attribute>: single-valued attributes are replaced
+			key := gCryptoKey(bw)
+			for _, r := range gRefs(body, "") {
+				if !m.exists(r) {
+					m.reject("reference to a missing "+r.kind, c)
+					return
+				}
+			}
+			for _, e := range m.entries {
+				if e.top == body {
+					m.reject("crypto map attribute that is already set", c)
+					return
+				}
+			}
+			if key != "" {
+				for _, e := range m.entries {
+					if ew := strings.Fields(e.top); len(ew) >= 5 && gCryptoKey(ew) == key && ew[2] == bw[2] && ew[3] == bw[3] {
+						e.top = body
+						return
+					}
+				}
+			}
+			m.entries = append(m.entries, &gEntry{top: body})
+			return
+		}
 		if neg {
 			k, n := gKindName(body)
+			if k == "transform-set" {
+				for _, e := range m.entries {
+					if e.top == body {
+						m.delObject(gRef{k, n}, c)
+						return
+					}
+				}
+				m.reject("transform-set to be deleted does not exist in that form", c)
+				return
+			}
 			switch k {
 			case "object-group", "crypto ca certificate map", "ldap attribute-map":
 				m.delObject(gRef{k, n}, c)
@@ -547,6 +622,29 @@ func (m *gModel) expand(r gRef, depth int) string {
 	if depth > 6 {
 		return "<deep>"
 	}
+	if r.kind == "crypto map" {
+		// entries by sequence number; the numbers themselves are not compared
+		bySeq := map[string][]string{}
+		for _, e := range m.entries {
+			k, n := gKindName(e.top)
+			if !(k == r.kind && n == r.name) {
+				continue
+			}
+			w := strings.Fields(e.top)
+			attr := strings.Join(w[4:], " ")
+			for _, x := range gRefs(e.top, "") {
+				attr = strings.Replace(attr, x.name, "("+m.expand(x, depth+1)+")", 1)
+			}
+			bySeq[w[3]] = append(bySeq[w[3]], attr)
+		}
+		var groups []string
+		for _, l := range bySeq {
+			sort.Strings(l)
+			groups = append(groups, "["+strings.Join(l, ";")+"]")
+		}
+		sort.Strings(groups)
+		return strings.Join(groups, "|")
+	}
 	var lines []string
 	for _, e := range m.entries {
 		k, n := gKindName(e.top)
@@ -673,6 +771,42 @@ access-list inside_in extended deny ip any4 any4
 access-group inside_in in interface inside
 `
 
+// crypto map with up to two entries
+func gCryptoSide(b *strings.Builder, t, sfx string, seqs []string) {
+	n := vf.FixInt(vf.Int(t+".entries", 0, 2))
+	if n == 0 {
+		return
+	}
+	// transform-set definitions
+	t1 := vf.FixString(vf.Pick(t+".trans1", []string{"esp-3des esp-md5-hmac", "esp-aes-256 esp-sha-hmac"}))
+	b.WriteString("crypto ipsec ikev1 transform-set Trans1" + sfx + " " + t1 + "\n")
+	b.WriteString("crypto ipsec ikev1 transform-set Trans2" + sfx + " esp-aes-192 esp-sha-hmac\n")
+	peers := []string{"10.0.0.1", "10.0.0.2", "10.0.0.3"}
+	prev := -1
+	for i := 0; i < n; i++ {
+		ti := t + ".e" + strconv.Itoa(i)
+		p := vf.FixInt(vf.Int(ti+".peer", 0, 2))
+		vf.Assume(p > prev) // one entry per peer
+		prev = p
+		seq := seqs[i]
+		acl := "crypto-outside-" + seq + sfx
+		b.WriteString("access-list " + acl + " extended permit ip any4 10.0." + strconv.Itoa(p+1) + ".0 255.255.255.0\n")
+		b.WriteString("crypto map crypto-outside " + seq + " match address " + acl + "\n")
+		b.WriteString("crypto map crypto-outside " + seq + " set peer " + peers[p] + "\n")
+		sets := "Trans1" + sfx
+		if vf.Bool(ti + ".twoSets") {
+			sets += " Trans2" + sfx
+			vf.Cover("crypto map entry with two transform-sets")
+		}
+		b.WriteString("crypto map crypto-outside " + seq + " set ikev1 transform-set " + sets + "\n")
+		if vf.Bool(ti + ".pfs") {
+			b.WriteString("crypto map crypto-outside " + seq + " set pfs group19\n")
+		}
+	}
+	b.WriteString("crypto map crypto-outside interface outside\n")
+	vf.Cover("crypto map on " + map[string]string{"a": "device", "b": "target"}[t])
+}
+
 func VerifASAGraph() {
 	vf.Assumption("ASA object graph: device and target are assembled from blocks (one VPN user with group-policy, vpn-filter ACL of 2..3 lines, address pool; a left-over generated group-policy with ACL and pool; manually created ldap attribute-map + aaa-server, group-policy and tunnel-group that reference generated or manual objects); each path is one concrete pair, the solver chooses the block combination")
 	vf.Assumption("ASA model (text level): a command may only refer to existing objects, an object that is still referenced cannot be deleted, attributes need their parent object, sub-commands need the sub-mode of their parent, access-list lines are addressed by position, single-valued attributes are replaced")
@@ -724,8 +858,16 @@ func VerifASAGraph() {
 			vf.Cover("certificate map binding in target")
 		}
 	}
+	if part == "crypto" {
+		vf.Assumption("part crypto: crypto map bound to interface outside with 0..2 entries per side (peers of 3, match address ACL, transform-set list of 1..2 sets, optional pfs); transform-set definitions of the target may differ from the device's; model: single-valued attributes are replaced, 'set peer' adds, 'no' needs the exact line, referenced ACLs / transform-sets must exist and cannot be deleted while referenced")
+		outside := "interface Ethernet0/1\n nameif outside\n"
+		a.WriteString(outside)
+		b.WriteString(outside)
+		gCryptoSide(&a, "a", "-DRC-0", []string{"1", "3"})
+		gCryptoSide(&b, "b", "", []string{"1", "2"})
+	}
 	// device: managed user chain
-	if vf.Bool("a.user") {
+	if part != "crypto" && vf.Bool("a.user") {
 		t, al, pl := gPolicy("a.g1", "VPN-group-G1-DRC-0", "vpn-filter-G1-DRC-0", "pool-G1-DRC-0", 2, 1, []string{"Welcome"})
 		a.WriteString(t)
 		a.WriteString(gUser("u1@example.com", "VPN-group-G1-DRC-0"))
@@ -762,7 +904,7 @@ func VerifASAGraph() {
 		vf.Cover("unmanaged tunnel-group on device")
 	}
 	// target
-	if vf.Bool("b.user") {
+	if part != "crypto" && vf.Bool("b.user") {
 		banners := []string{"Welcome"}
 		if full {
 			banners = append(banners, "Willkommen")
@@ -871,16 +1013,18 @@ func VerifASAGraph() {
 	vf.Assert(len(s2.Changes) == 0, "C01: ASA: second compare still reports changes (VPN objects)")
 }
 
-// logical interface names defined in a configuration
+// logical interfaces Netspoc knows: those named by the access-group and
+// crypto map interface commands of the target (Netspoc's ASA code has no
+// interface definitions)
 func (m *gModel) nameifs() map[string]bool {
 	r := map[string]bool{}
 	for _, e := range m.entries {
-		if strings.HasPrefix(e.top, "interface ") {
-			for _, s := range e.subs {
-				if w := strings.Fields(s); len(w) == 2 && w[0] == "nameif" {
-					r[w[1]] = true
-				}
-			}
+		w := strings.Fields(e.top)
+		if len(w) == 5 && w[0] == "access-group" && w[3] == "interface" {
+			r[w[4]] = true
+		}
+		if len(w) == 5 && w[0] == "crypto" && w[1] == "map" && w[3] == "interface" {
+			r[w[4]] = true
 		}
 	}
 	return r
@@ -894,6 +1038,8 @@ func (m *gModel) interfaceOf(r gRef) string {
 		if len(w) == 5 && w[3] == "interface" {
 			return w[4]
 		}
+	case "crypto map interface":
+		return strings.Fields(r.name)[4]
 	case "interface":
 		for _, e := range m.entries {
 			if e.top == r.name {
